@@ -96,13 +96,17 @@ def run_one(ctx, c):
         ctx.count(k)
 
 
-def run(ctx):
-    n = 40 if ctx.quick else 400
+def batch(ctx, n, tagged_every):
     for k in range(n):
         c = gen(ctx, ctx.rng)
         run_one(ctx, c)
-        if k % 2 == 0:
+        if k % tagged_every == 0:
             tagged_positions(ctx, c)
+
+
+def run(ctx):
+    n = 40 if ctx.quick else 400
+    core.parallel_cases(ctx, batch, [(n // 8, 2)] * 8, jobs=8)
 
 
 def search(ctx):
